@@ -27,6 +27,8 @@ def run (name : String) (x : Bytes) : Option Res :=
   | "base64encode" => some (base64Encode x)
   | "base64decode" => some (base64Decode x)
   | "base64decodeext" => some (base64DecodeExt x)
+  | "verifadda" => some ⟨x ++ [0x41], true, false⟩   -- registered by the harness the way a plugin does (plugintf.go)
+  | "verifaddb" => some ⟨x ++ [0x42], true, false⟩
   | "hexencode" => some (hexEncode x)
   | "hexdecode" => some (hexDecode x)
   | "removenulls" => some (removeNulls x)
